@@ -33,6 +33,12 @@
 //! * streaming RPCs (BulkInsert, BulkLoadHnsw, BulkSearch) take a slice of items and stream them.
 //! * tenant index assignment of the server (needed by models): on a fresh data dir the ENABLED
 //!   tenants are sorted by tenant_id and numbered 0,1,2…; [`Server::tenant_index`] returns that.
+//! * several API keys for one tenant (key rotation): list several `TenantSpec`s with the same
+//!   `tenant_id` and different keys (`TenantSpec::new("acme").key(&make_key("acme", 1))`);
+//!   `Server::key(t)` returns the first, `Server::keys_of(t)` all of them.
+//! * changing the key file between runs: `s.stop_graceful()?; s.add_tenant(spec); s.restart()?`
+//!   (or edit `s.opts.tenants` directly) — `restart` rewrites the YAML from `opts.tenants` and starts
+//!   the binary on the SAME data dir. `Server::tenant_map()` reads the persisted `tenants.json`.
 //! * `Server::raw_client()` + `Server::runtime()` + [`with_key`] give direct access to the tonic
 //!   client for concurrent call patterns (C14 races); `Server::env` lets callers add environment
 //!   variables (e.g. LD_PRELOAD of the fs shim).
@@ -495,6 +501,20 @@ impl Server {
     /// API key of a tenant declared in the options (panics when unknown).
     pub fn key(&self, tenant_id: &str) -> String {
         self.opts.tenants.iter().find(|t| t.tenant_id == tenant_id).map(|t| t.key.clone()).expect("unknown tenant")
+    }
+    /// All API keys declared for a tenant (in declaration order).
+    pub fn keys_of(&self, tenant_id: &str) -> Vec<String> {
+        self.opts.tenants.iter().filter(|t| t.tenant_id == tenant_id).map(|t| t.key.clone()).collect()
+    }
+    /// Declare another key-file entry; takes effect at the next `restart()`.
+    pub fn add_tenant(&mut self, spec: TenantSpec) {
+        self.opts.tenants.push(spec);
+    }
+    /// The persisted tenant-id -> tenant-index map (`<data_dir>/tenants.json`), if present.
+    pub fn tenant_map(&self) -> Option<BTreeMap<String, u32>> {
+        let bytes = std::fs::read(self.data_dir.join("tenants.json")).ok()?;
+        let v: serde_json::Value = serde_json::from_slice(&bytes).ok()?;
+        Some(v.as_object()?.iter().filter_map(|(k, x)| x.as_u64().map(|i| (k.clone(), i as u32))).collect())
     }
     /// Index the server assigns on a fresh data dir: enabled tenants sorted by id, numbered from 0
     /// (`TenantIdMapper::load_or_create`). `None` for a tenant without an enabled key.
